@@ -24,6 +24,9 @@ func runC09(c *an.Ctx) {
 	// shared with C08: a pending (possibly critical, possibly failing) call must not be forgotten before it is awaited
 	pendingResetRule(c, "R09d")
 	pendingMutationRule(c, "R09e")
+	// shared with C08: every awaited call is collected before AwaitAll returns, so that all failures of one moment and
+	// weight are reported together and no hook is still running when the transition is answered
+	c.As(map[string]string{"R08f": "R09f"}, func() { r08f(c) })
 }
 
 // envCallbacks resolves the four FSM callback closures of the environment by their constant map
